@@ -164,6 +164,84 @@ def seeds(x, p):
     write_checks(x, lx.tokens)
 
 
+# (code, fully parsed?, expected formatted text as a function of the width)
+CLI_CODES = [
+    (b'if a then\nb=1\nend\n', True,
+     lambda w: b'if a then\n' + b' ' * w + b'b=1\nend\n'),
+    (b'function f()\n\t\tfor i=1,2 do\nx = 1 -- c\n  end\nend', True,
+     lambda w: b'function f()\n' + b' ' * w + b'for i=1,2 do\n' +
+     b' ' * (2 * w) + b'x = 1  -- c\n' + b' ' * w + b'end\nend\n'),
+    (b'if (a) b=1\n?c,d\ne=2\n', True, None),
+    (b'x=1\na |= 1\ny=2\n', False, None),
+    (b'x=1\nfoo bar\n', False, None),
+]
+
+
+def cli(x, p):
+    """`p8tool luafmt [--indentwidth N] [--overwrite] in.p8` end to end:
+    argparse wiring, cart reader, formatter, cart writer, over an in-memory
+    file system."""
+    from props import clikit
+    ci = x.choice('code', list(range(len(CLI_CODES))))
+    code, valid, expect = CLI_CODES[ci]
+    w = x.choice('width', [None, 0, 1, 2, 3, 4, 8])
+    overwrite = x.bool('overwrite')
+    src = clikit.p8_text(code)
+    fs = clikit.MemFS(x, {'/w/in.p8': src})
+    argv = ['luafmt']
+    if w is not None:
+        argv += ['--indentwidth', str(w)]
+    if overwrite:
+        argv.append('--overwrite')
+    argv.append('/w/in.p8')
+    rc, exc = clikit.run_main(argv)
+    x.out('rc', repr(rc))
+    x.out('exc', repr(exc)[:80])
+    out_name = '/w/in.p8' if overwrite else '/w/in_fmt.p8'
+    if not valid:
+        x.tag('not fully parsed')
+        x.check('luafmt fails with an error on code it could not parse to '
+                'the end', Or(exc is not None, rc != 0))
+        x.check('and writes nothing', len(fs.opened_for_write) == 0)
+        x.check('the input file keeps its bytes',
+                fs.files.get('/w/in.p8') == src)
+        return
+    x.tag('valid')
+    x.check('luafmt succeeds on a valid program',
+            And(exc is None, rc == 0), info=repr(exc)[:120])
+    if exc is not None or rc != 0:
+        return
+    x.check('luafmt writes exactly the expected output file',
+            fs.opened_for_write == [out_name])
+    if out_name not in fs.files:
+        return
+    if not overwrite:
+        x.check('the input file keeps its bytes',
+                fs.files.get('/w/in.p8') == src)
+    got = clikit.lua_of(fs.files[out_name])
+    x.out('code', got)
+    width = 2 if w is None else w
+    if expect is not None:
+        x.check('indentation = indent width x nesting depth',
+                got == expect(width))
+    direct = b''.join(lua.Lua.from_lines([code], version=8).to_lines(
+        writer_cls=lua.LuaFormatterWriter,
+        writer_args={'indentwidth': width}))
+    if not direct.endswith(b'\n'):
+        direct += b'\n'
+    x.check('the file holds what the formatter produced for this width',
+            got == direct)
+    a = lexer.Lexer(version=8)
+    a.process_lines([code])
+    b = lexer.Lexer(version=8)
+    b.process_lines([got])
+    x.check('same code tokens in the written cart',
+            [(type(t), t.code) for t in a.tokens if not isinstance(
+                t, (lexer.TokSpace, lexer.TokNewline, lexer.TokComment))] ==
+            [(type(t), t.code) for t in b.tokens if not isinstance(
+                t, (lexer.TokSpace, lexer.TokNewline, lexer.TokComment))])
+
+
 Q = {'_budget': 600}
 KQ = []
 for _s in (False, True):
@@ -188,11 +266,12 @@ HARNESSES = [
             thorough=[dict(Q, k=1), dict(Q, k=2), dict(Q, k=3,
                                                       _budget=3000)]),
     Harness('contexts', contexts,
-            quick=[dict(Q, pre=a, post=b, k=1) for a, b in P8.CONTEXTS[:4]],
+            quick=[dict(Q, pre=a, post=b, k=1) for a, b in P8.CONTEXTS[:5]],
             thorough=[dict(Q, pre=a, post=b, k=2, _budget=1800)
                       for a, b in P8.CONTEXTS]),
     Harness('seeds', seeds, quick=[dict(Q, src=s) for s in SEEDS] +
             [dict(Q, src=s) for s in P8.EVERY] +
             [dict(Q, src=s.replace(' ', '  --c\n ').replace('\n', ' \n\n'))
              for s in P8.EVERY]),
+    Harness('cli', cli, quick=[Q]),
 ]
